@@ -11,7 +11,7 @@ import itertools
 
 from ..program import AnalysisError, walk_local, dotted
 from ..analysis import Spec, src, const_value
-from ..rules import (canon, cond_equiv, flow_canon, chained_assign_value, substitute_locals,
+from ..rules import (strip_wrappers, kw, canon, cond_equiv, flow_canon, chained_assign_value, substitute_locals,
                      iteration_outcomes, kind_env, GWF, EXC, need_func, stores_to, is_const, raise_class,
                      eval_atom, eval_cond, UNKNOWN, parent_map)
 from . import common
@@ -99,17 +99,23 @@ def compare_branches_table(prog, an, rep):
     f = need_func(an, BR + '.compare_branches')
     rows = 0
     bad = False
+    # the (major, minor) keys of the two entries, whatever the locals are
+    # called
+    p1, p2 = f.params[0], f.params[1]
+    M1, m1, M2, m2 = ('%s[0][0]' % p1, '%s[0][1]' % p1,
+                      '%s[0][0]' % p2, '%s[0][1]' % p2)
     for same_major, same_minor, n1, n2 in itertools.product((True, False),
                                                             repeat=4):
         if same_minor and n1 != n2:
             continue
         if n1 and n2 and not same_minor:
             continue
-        env = {'major1 == major2': same_major, 'minor1 == minor2': same_minor,
-               'minor1 is None': n1, 'minor2 is None': n2}
+        env = {'%s == %s' % (M1, M2): same_major,
+               '%s == %s' % (m1, m2): same_minor,
+               '%s is None' % m1: n1, '%s is None' % m2: n2}
         got = _ret_values(an, f, env)
         if not same_major:
-            want = {'major1 - major2'}
+            want = {'%s - %s' % (M1, M2)}
         elif same_minor:
             want = {0}
         elif n1:
@@ -117,7 +123,7 @@ def compare_branches_table(prog, an, rep):
         elif n2:
             want = {-1}
         else:
-            want = {'minor1 - minor2'}
+            want = {'%s - %s' % (m1, m2)}
         rows += 1
         rep.evaluated()
         if got != want:
@@ -129,16 +135,6 @@ def compare_branches_table(prog, an, rep):
         rep.ok(R, '%s: %d-row case table (major first; development/x after '
                'every development/x.*; else by minor)' % (f.qname, rows),
                f.where())
-    un = [n for n in walk_local(f.node, include_root=False)
-          if isinstance(n, ast.Assign) and
-          isinstance(n.targets[0], ast.Tuple)]
-    ok = sorted(src(n.value) for n in un) == ['branch1[0][:2]',
-                                              'branch2[0][:2]'] and \
-        sorted(src(n.targets[0]) for n in un) == ['(major1, minor1)',
-                                                  '(major2, minor2)']
-    rep.check(ok, R, f.qname + ': compares the (major, minor) keys of the '
-              'two entries', f.where(), 'keys are read as %s' %
-              [src(n) for n in un])
 
 
 def dev_lt_table(prog, an, rep):
@@ -205,6 +201,59 @@ def compare_queues_table(prog, an, rep):
             sorted(map(str, got)))
 
 
+def _version_order_key(k, lam=None):
+    """How a sort key orders (version, branches) items: 'ok' when it is
+    (major, minor') with a missing minor mapped above every number, 'truthy'
+    when a falsy minor (0) is mapped there too, 'low' when a missing minor
+    is mapped to a finite number, else 'unknown'.  k: the function that
+    holds the code; lam: the lambda when the key is written in place."""
+    if lam is not None:
+        if len(lam.args.args) != 1:
+            return 'unknown'
+        item, value = lam.args.args[0].arg, lam.body
+    else:
+        rets = [r for r in walk_local(k.node, include_root=False)
+                if isinstance(r, ast.Return)]
+        if len(k.params) != 1 or len(rets) != 1:
+            return 'unknown'
+        item, value = k.params[0], rets[0].value
+    if not isinstance(value, ast.Tuple) or len(value.elts) != 2:
+        return 'unknown'
+    f = k if lam is None else None
+    major, minor = '%s[0][0]' % item, '%s[0][1]' % item
+    first, second = value.elts
+    if canon(f, first) != major:
+        return 'unknown'
+    if f is not None:
+        second = substitute_locals(f, second)
+    top = ("float('inf')", 'math.inf', 'inf')
+
+    def kind(text):
+        if text in top:
+            return 'top'
+        try:
+            return 'finite' if isinstance(
+                ast.literal_eval(text), (int, float)) else None
+        except (ValueError, SyntaxError):
+            return None
+    if isinstance(second, ast.IfExp):
+        t, a, b = canon(f, second.test), canon(f, second.body), \
+            canon(f, second.orelse)
+        if (t, b) == (minor + ' is None', minor) and kind(a):
+            return 'ok' if kind(a) == 'top' else 'low'
+        if (t, a) == (minor + ' is not None', minor) and kind(b):
+            return 'ok' if kind(b) == 'top' else 'low'
+        if (t, a) == (minor, minor) and kind(b):
+            return 'truthy' if kind(b) == 'top' else 'low'
+    if isinstance(second, ast.BoolOp) and isinstance(second.op, ast.Or) and \
+            len(second.values) == 2 and \
+            canon(f, second.values[0]) == minor and \
+            kind(canon(f, second.values[1])):
+        return 'truthy' if kind(canon(f, second.values[1])) == 'top' \
+            else 'low'
+    return 'unknown'
+
+
 def sorted_by_comparators(prog, an, rep):
     R = 'C09.ARG.sorting'
     for q, var, cmp_ in ((BR + '.BranchCascade.add_branch', 'self._cascade',
@@ -220,6 +269,43 @@ def sorted_by_comparators(prog, an, rep):
                     canon(f, n.ast.value).replace(' ', '') == (
                         'OrderedDict(sorted(%s.items(),key=cmp_to_key(%s)))'
                         % (var, cmp_)):
+                sorts += c.done_of(n)
+        # ... or with a key function that spells the same order
+        # (compare_branches: major, then minor, a missing minor last)
+        keyed = []
+        for n in c.nodes.values():
+            if n.kind == 'stmt' and isinstance(n.ast, ast.Assign) and \
+                    src(n.ast.targets[0]) == var and not sorts:
+                v = strip_wrappers(n.ast.value, names=('OrderedDict',))
+                if isinstance(v, ast.Call) and src(v.func) == 'sorted' and \
+                        len(v.args) == 1 and \
+                        canon(f, v.args[0]) == var + '.items()' and \
+                        kw(v, 'key') is not None and not kw(v, 'reverse'):
+                    keyed.append((n, kw(v, 'key')))
+        for n, key in keyed:
+            cal = prog.resolve_expr(f.module, key, f) \
+                if isinstance(key, ast.Name) else None
+            kf = prog.funcs.get(cal) if cal else None
+            verdict = 'unknown'
+            if cmp_ == 'compare_branches' and kf is not None:
+                verdict = _version_order_key(kf)
+            elif cmp_ == 'compare_branches' and isinstance(key, ast.Lambda):
+                verdict = _version_order_key(f, key)
+            if verdict == 'unknown':
+                raise AnalysisError('C09: %s sorts %s with key %s, a form '
+                                    'this check cannot compare with %s' % (
+                                        f.qname, var, src(key), cmp_))
+            rep.evaluated()
+            rep.check(verdict == 'ok', R, '%s: the sort key %s orders like '
+                      '%s' % (f.qname, src(key)[:40], cmp_),
+                      (kf or f).where(n if kf is None else None),
+                      'the key treats a minor version of 0 like a missing '
+                      'one: development/x.0 is ordered after every '
+                      'development/x.y' if verdict == 'truthy' else
+                      'the key orders a missing minor version like a '
+                      'number: development/x is not after every '
+                      'development/x.y')
+            if verdict == 'ok':
                 sorts += c.done_of(n)
         rep.evaluated()
         rep.check(bool(sorts), R, '%s keeps %s sorted with %s' % (
